@@ -1110,8 +1110,87 @@ def run(ctx):
                 r2, complete2 = sweep(ctx, batch, c, bound=2, cap=6000)
                 ctx.cov.setdefault('more_sweeps', []).append(
                     {'scenario': c, 'preemption_bound': 2, 'runs': r2, 'complete_within_bound': complete2})
+    if ctx.broken is None:
+        single_start(ctx)
     if ctx.broken is not None:
         search_after_break(ctx)
+
+
+def single_start(ctx):
+    """The protocol model assumes ONE start of the pool.  Two user threads issue their first
+    download_file() concurrently on a real (not yet started) ProcessPoolDownloader under the
+    scheduler; the three methods that fork the manager / submitter / workers are replaced by
+    counting stubs (nothing is forked).  Every schedule up to a budget: exactly one start."""
+    from harness.sched import core
+    m = pp()
+    found = 0
+    n_runs = 0
+    prefixes = [[]]
+    seen = set()
+    while prefixes and n_runs < (400 if ctx.thorough() else 80) and not found:
+        prefix = prefixes.pop(0)
+        if tuple(prefix) in seen:
+            continue
+        seen.add(tuple(prefix))
+        br = []
+        sched = core.Sched(chooser=Recording(core.ReplayChooser(prefix), br), max_steps=4000)
+        shim = core.Shim(sched, post_yield=True)
+        saved_threading = m.threading
+        m.threading = shim
+        starts = {'manager': 0, 'submitter': 0, 'workers': 0}
+        try:
+            dl = m.ProcessPoolDownloader()
+            stubs = {}
+            for nm, key in (('_start_transfer_monitor_manager', 'manager'), ('_start_submitter', 'submitter'),
+                            ('_start_get_object_workers', 'workers')):
+                if not hasattr(dl, nm):
+                    ctx.notes.append(f'single-start scenario skipped: ProcessPoolDownloader has no {nm}')
+                    return
+
+                def stub(key=key):
+                    starts[key] += 1
+                    sched.yield_point('start.' + key)
+                setattr(dl, nm, stub)
+
+            class Q:
+                def put(self_, item):
+                    sched.yield_point('reqq.put')
+            dl._download_request_queue = Q()
+
+            class Mon:
+                def __init__(self_):
+                    self_.n = 0
+
+                def notify_new_transfer(self_):
+                    self_.n += 1
+                    return self_.n
+            dl._transfer_monitor = Mon()
+            errs = []
+
+            def user(k):
+                try:
+                    dl.download_file('b', f'k{k}', f'/nonexistent/dst{k}', expected_size=1)
+                except Exception as e:      # noqa
+                    errs.append(repr(e))
+            for k in range(2):
+                sched.spawn((lambda k=k: user(k)), f'user{k}', role='user')
+            try:
+                sched.run()
+            except (core.Deadlock, core.Livelock) as e:
+                errs.append(repr(e))
+        finally:
+            m.threading = saved_threading
+        n_runs += 1
+        ctx.count('pool-single-start', 1, nontrivial_key=tuple(sched.choices))
+        if max(starts.values()) > 1 or errs:
+            found += 1
+            ctx.report('oracle:double-start', f'two concurrent first download_file() calls started the pool {starts} times '
+                       f'(manager / submitter / workers){"; errors " + str(errs) if errs else ""}; schedule {list(sched.choices)}',
+                       {'kind': 'schedule', 'component': 'processpool-start', 'case': {'single_start': True, 'choices': list(sched.choices)}})
+        # breadth-first over deviations from the default schedule
+        for j in range(len(prefix), min(len(br), 40)):
+            for c in range(1, br[j]):
+                prefixes.append(list(sched.choices[:j]) + [c])
 
 
 def sub_check(ctx, focus):
@@ -1172,6 +1251,10 @@ def search_after_break(ctx):
 
 def replay(ctx, data):
     case = data.get('case') or {}
+    if isinstance(case, dict) and case.get('single_start'):
+        n0 = len(ctx.violations)
+        single_start(ctx)
+        return len(ctx.violations) > n0
     if isinstance(case, dict) and 'scenario' in case:
         r = execute(case['scenario'], case.get('chooser') or {'type': 'first'})
         for kind, text in r.problems:
